@@ -82,6 +82,14 @@ fn classify(f: &syn::ImplItemFn, generics: &[String]) -> (String, String) {
             want_self.extend(params.iter().cloned());
             let mut want_deref = vec!["*self".to_string()];
             want_deref.extend(params.iter().cloned());
+            // `G::m(&mut **self, args)` / `G::m(&**self, args)` with `G` a type parameter of the impl: the same
+            // function `(**self).m(args)` resolves to (a type parameter has no inherent methods)
+            let first = args.first().cloned().unwrap_or_default();
+            if (first == "&mut**self" || first == "&**self") && args[1..] == params[..] && p.qself.is_none() && p.path.segments.len() == 2
+                && generics.contains(&p.path.segments[0].ident.to_string())
+            {
+                return (callee, "deref".into());
+            }
             if args != want_self && args != want_deref {
                 return (callee, "other".into());
             }
